@@ -20,7 +20,7 @@ from harness import c08_world as W
 FA = 7            # force_after used by the injected close() calls
 REACT = 3         # a stubborn handler's reaction time
 TAIL = 200        # virtual seconds after the conversation
-LTS_EVENTS = {'Q', 'W', 'B', 'C', 'X', 'D', 'NQ', 'NW', 'BT', 'F', 'O', 'OB', 'ON', 'R', 'L', 'AC', 'ACC',
+LTS_EVENTS = {'Q', 'W', 'B', 'C', 'X', 'D', 'NQ', 'NW', 'BT', 'F', 'O', 'OB', 'ON', 'R', 'L', 'LE', 'AC', 'ACC',
               'ACT', 'AB', 'A'}
 
 RULE = ('case = (session kind RPCSession|MessageSession, transport RSTransport|USTransport, '
@@ -33,13 +33,15 @@ RULE = ('case = (session kind RPCSession|MessageSession, transport RSTransport|U
         'handler was inside its body; distinct = distinct (config, event list)')
 
 # ---------------------------------------------------------------------------- conversations
-RPC_STEPS_QUICK = ['W', 'B', 'K', 'O', 'OB', 'Q', 'PA', 'F', 'A5']
-RPC_STEPS_FULL = ['Q', 'W', 'B', 'C', 'X', 'K', 'D', 'NW', 'NQ', 'BT', 'PT', 'GB', 'O', 'OB', 'ON',
+RPC_STEPS_QUICK = ['W', 'B', 'K', 'O', 'OB', 'Q', 'PA', 'GB', 'A5']
+RPC_STEPS_FULL = ['Q', 'W', 'B', 'BL', 'C', 'X', 'K', 'D', 'NW', 'NQ', 'BT', 'PT', 'GB', 'O', 'OB', 'ON',
                   'R', 'F', 'PA', 'RE', 'A1', 'A5', 'A25']
-MSG_STEPS_QUICK = ['W', 'B', 'Q', 'ON', 'PA', 'A5']
-MSG_STEPS_FULL = ['Q', 'W', 'B', 'C', 'X', 'PT', 'GB', 'BC', 'ON', 'F', 'PA', 'RE', 'A1', 'A5', 'A25']
+MSG_STEPS_QUICK = ['W', 'B', 'Q', 'ON', 'PA', 'GB', 'A5']
+MSG_STEPS_FULL = ['Q', 'W', 'B', 'BL', 'C', 'X', 'PT', 'GB', 'BC', 'ON', 'F', 'PA', 'RE', 'A1', 'A5', 'A25']
 FAULTS = ['drop', 'close', 'close2', 'closeclose', 'abort', 'close_stalled', 'close2_stalled',
-          'handler_close', 'handler_close_stalled', 'abort_then_close', 'close_then_drop']
+          'handler_close', 'handler_close_stalled', 'abort_then_close', 'close_then_drop',
+          'drop_error', 'drop_then_close']
+REACT_LONG = 20   # a stubborn handler that outlasts force_after (and twice force_after)
 
 
 def expand(steps, fault, at):
@@ -51,6 +53,11 @@ def expand(steps, fault, at):
         f = fault.replace('_stalled', '')
         if f == 'drop':
             return [('L',)]
+        if f == 'drop_error':
+            return [('LE',)]
+        if f == 'drop_then_close':
+            st['c'] += 1
+            return [('LE',), ('AC', st['c'], FA)]
         if f == 'close':
             st['c'] += 1
             return [('AC', st['c'], FA)]
@@ -79,10 +86,10 @@ def expand(steps, fault, at):
             if name in ('W', 'NW'):
                 st['waiting'].append(st['h'])
             return [(name, st['h'])]
-        if name == 'B':
+        if name in ('B', 'BL'):
             st['h'] += 1
             st['waiting'].append(st['h'])
-            return [('B', st['h'], REACT)]
+            return [('B', st['h'], REACT if name == 'B' else REACT_LONG)]
         if name == 'C':
             st['h'] += 1
             return [('C', st['h'], FA)]
@@ -142,9 +149,9 @@ def random_crash_cases(r, n, maxlen=6):
 
 
 # ---------------------------------------------------------------------------- lifecycle (model) cases
-LTS_ALPHA = ['Q', 'W', 'B3', 'B1', 'C7', 'C2', 'F', 'O', 'R', 'L', 'AC7', 'AC2', 'ACC', 'AB', 'A1', 'A2',
+LTS_ALPHA = ['Q', 'W', 'B3', 'B20', 'C7', 'C2', 'F', 'O', 'R', 'L', 'AC7', 'AC2', 'ACC', 'AB', 'A1', 'A2',
              'A5']
-LTS_ALPHA_QUICK = ['W', 'B3', 'C7', 'F', 'O', 'R', 'L', 'AC7', 'AC2', 'AB', 'A2', 'A5']
+LTS_ALPHA_QUICK = ['W', 'B3', 'B20', 'C7', 'O', 'R', 'L', 'AC7', 'AC2', 'AB', 'A2', 'A5']
 
 
 def expand_lts(letters, skind, tail=True):
@@ -196,7 +203,7 @@ def random_lts_case(r):
             h += 1
             kind = r.choice(['Q', 'W', 'W', 'B', 'B', 'C'])
             if kind == 'B':
-                evs.append(('B', h, r.choice([0, 1, 3, 3, 8])))
+                evs.append(('B', h, r.choice([0, 1, 3, 3, 8, 20])))
             elif kind == 'C':
                 evs.append(('C', h, r.choice([0, 2, 7])))
             else:
@@ -209,7 +216,7 @@ def random_lts_case(r):
         elif x < 0.52 and skind == 'rpc' and k:
             evs.append(('R', r.randint(1, k)))
         elif x < 0.58:
-            evs.append(('L',))
+            evs.append((r.choice(['L', 'LE']),))
         elif x < 0.72:
             c += 1
             evs.append(('AC', c, r.choice([0, 1, 2, 7, 7, 30])))
@@ -328,10 +335,12 @@ def oracle(cfg, evs, summ, ptimeout):
         if t_closed is None:
             continue
         want = r['start'] if r['closed_at_call'] else max(r['start'], t_closed)
-        if r['done_at'] != want:
-            bad.append(('c08:close-return-time',
-                        f'close() {c} called at {r["start"]} returned at {r["done_at"]}; the '
-                        f'connection was fully closed at {t_closed}'))
+        # returning *before* everything is torn down breaks "returns when closed"; returning
+        # later than that is only a difference from the model (reported by the correspondence)
+        if r['done_at'] < want:
+            bad.append(('c08:close-returned-early',
+                        f'close() {c} called at {r["start"]} returned at {r["done_at"]}, but the '
+                        f'connection was only fully closed (hook run, handlers done) at {t_closed}'))
         if not r['closed_at_call'] and t_closed > r['start'] + r['fa'] \
                 and (r['start'] + r['fa']) not in summ['aborts']:
             bad.append(('c08:no-forced-abort',
@@ -489,7 +498,7 @@ def run(ctx):
     res['scopes']['lifecycle'] = {'scopes': [[a, m] for a, m in scopes], 'cases': len(lts)}
 
     # crash-point enumeration
-    main_faults = ['drop', 'close', 'close2_stalled', 'handler_close', 'abort']
+    main_faults = ['drop_error', 'close', 'close2_stalled', 'handler_close', 'abort', 'drop_then_close']
     jobs = crash_cases('rpc', RPC_STEPS_QUICK, 2)
     jobs += crash_cases('msg', MSG_STEPS_QUICK, 2, start=1)
     f3 = FAULTS if ctx.deep else main_faults
